@@ -472,6 +472,24 @@ def _nonempty(ctx, p, r_ne):
                                 # and a push happens in the loop body on the Some edge
                                 if any(t2['func'].get('path') == VEC_PUSH for bi2, t2 in b.calls() if bi2 in L['body']):
                                     ok = True
+        # (c) the states are collected from `successors(Some(i), ..)` (its first item is i whatever the closure says),
+        #     mapped one to one (map / rev / cloned keep the count)
+        if not ok:
+            for bi, t in b.calls():
+                if t['func'].get('path') != 'std::iter::Iterator::collect' or not t['args']:
+                    continue
+                src = fn.arg_terms(t, 0, bi)
+                for _ in range(6):
+                    if len(src) != 1:
+                        break
+                    q = next(iter(src))
+                    if q[0] == 'call' and q[1].rsplit('::', 1)[-1] in ('map', 'rev', 'cloned', 'copied', 'into_iter', 'inspect', 'enumerate') and q[2]:
+                        src = q[2][0]
+                        continue
+                    if q[0] == 'call' and q[1] == 'std::iter::successors' and q[2] and q[2][0] and \
+                            all(x[0] == 'agg' and x[2] == 'Some' for x in q[2][0]):
+                        ok = True
+                    break
         r_ne.inst('%s returns a non-empty path' % path, ok=ok, site=b.loc(0))
         if not ok:
             r_ne.violations.append(Violation('C02', 'C02.nonempty', path, 'empty', why, loc=b.loc(0)))
